@@ -254,8 +254,10 @@ def _o_interplin(call):
     exp = v[j] + slope * (u - x[j])
     got = np.asarray(call.result)
     scale = np.abs(v).max() + np.abs(slope * (u - x[j]))
-    if got.shape != exp.shape or not np.all(np.abs(got - exp) <= 1e-11 * (np.abs(exp) + scale)):
-        bad = np.nonzero(~(np.abs(got.astype(LD) - exp) <= 1e-11 * (np.abs(exp) + scale)))[0][:3] if got.shape == exp.shape else []
+    # arithmetic in the precision of the inputs is legitimate: float32 tables give a float32 result
+    rtol = 1e-11 if got.dtype.kind != "f" or got.dtype.itemsize >= 8 else 64 * float(np.finfo(got.dtype).eps)
+    if got.shape != exp.shape or not np.all(np.abs(got - exp) <= rtol * (np.abs(exp) + scale)):
+        bad = np.nonzero(~(np.abs(got.astype(LD) - exp) <= rtol * (np.abs(exp) + scale)))[0][:3] if got.shape == exp.shape else []
         COL.violation("C18.interplin", "interplin %r differs from piecewise-linear value %r at u=%r" % (
             got[bad].tolist() if len(bad) else got.shape, exp[bad].astype("f8").tolist() if len(bad) else exp.shape,
             u[bad].astype("f8").tolist() if len(bad) else None), wit)
@@ -440,6 +442,17 @@ def run_case(case):
             u = float(u[0])
         elif r < .3:
             u = u[:int(rng.integers(1, 4))]
+        if rng.random() < .25:
+            # integer-valued tables and queries in integer and float32 dtypes, unsigned ones included (the values are
+            # exactly representable in all of them, so the reference is the same piecewise-linear function)
+            top = int(rng.choice([250, 60000]))
+            x = np.sort(rng.choice(np.arange(10, top - 10), size=npt, replace=False)).astype("f8")
+            v = rng.integers(0, 250, size=npt).astype("f8")
+            uu = np.concatenate([rng.integers(0, top, size=8).astype("f8"), rng.choice(x, size=2), [0.0, float(top)]])
+            rng.shuffle(uu)
+            ints = ["u1", "u2", "u4", "u8", "i2", "i4", "i8", "f4", "f8"] if top == 250 else ["u2", "u4", "u8", "i4", "i8", "f4", "f8"]
+            tx, tv, tu = (str(rng.choice(ints)) for _ in range(3))
+            x, v, u = x.astype(tx), v.astype(tv), uu.astype(tu)
         COL.sample({"family": fam, "npt": npt, "x": x[:5].tolist(), "u": np.atleast_1d(u)[:5].tolist()})
         probe.attempt(st.interplin, gen.maybe_view(rng, v), gen.maybe_view(rng, x), gen.maybe_view(rng, u) if isinstance(u, np.ndarray) else u)
     elif fam == "get_stats":
